@@ -86,7 +86,7 @@ R.with_exit['Handle'] = ('trusted:Handle.close', 'trusted:Handle.close_after_exc
 R.file_sorts = ('Handle',)
 
 # ---- metadata document written by save
-R.func('ser_task', ['Task'], 'PV')              # SPEC: the serialised form of a task (defined and analysed in the C07/C09 cone)
+R.func('ser_task_pv', ['Inst'], 'PV')           # SPEC: the serialised form of a task object (defined and analysed in the C07/C09 cone)
 R.func('ckey', ['Task'], 'Key')                 # task.cache_key (computed once at construction)
 R.func('cache_cls_name', ['Cache'], 'Str')
 R.func('key_prefix', ['Cache'], 'Str')
@@ -114,7 +114,7 @@ R.contract('trusted:timedelta', trusted=True, params={'seconds': 'Flt'}, returns
 R.records['Inst'].pure.update({'cache_key': 'ckey(Inst_to_Task(self))', '__class__.__qualname__': 'qualname(type_of_Task(Inst_to_Task(self)))'})
 R.func('qualname', ['Type'], 'Str')
 
-R.macro('METADOC', ['cache', 'task', 'r'], """MkDoc(True, LABTECH_VERSION(), True, cache_cls_name(cache), True, ckey(Inst_to_Task(task)), True, ser_task(Inst_to_Task(task)),
+R.macro('METADOC', ['cache', 'task', 'r'], """MkDoc(True, LABTECH_VERSION(), True, cache_cls_name(cache), True, ckey(Inst_to_Task(task)), True, ser_task_pv(task),
     True, isnone(r.meta.start), isoformat(unopt(r.meta.start)), True, isnone(r.meta.duration), total_seconds(unopt(r.meta.duration)))""")
 R.macro('LOADABLE', ['cache', 'task', 'r'], """(fid(ckey(Inst_to_Task(task)), META_NAME()) in FGOOD)
     and DOC_MATCHES(json_inv(FGOOD[fid(ckey(Inst_to_Task(task)), META_NAME())]), cache, task, r)
@@ -122,13 +122,11 @@ R.macro('LOADABLE', ['cache', 'task', 'r'], """(fid(ckey(Inst_to_Task(task)), ME
     and (pickle_inv(FGOOD[fid(ckey(Inst_to_Task(task)), DATA_NAME())]) == r.value)""")
 # the stored document carries this cache, this key, this task and this result's meta (null values for absent meta)
 R.macro('DOC_MATCHES', ['d', 'cache', 'task', 'r'], """Doc_has_cache(d) and (Doc_val_cache(d) == cache_cls_name(cache)) and Doc_has_cache_key(d) and (Doc_val_cache_key(d) == ckey(Inst_to_Task(task)))
-    and Doc_has_task(d) and (Doc_val_task(d) == ser_task(Inst_to_Task(task)))
+    and Doc_has_task(d) and (Doc_val_task(d) == ser_task_pv(task))
     and Doc_has_start_timestamp(d) and (Doc_null_start_timestamp(d) == isnone(r.meta.start)) and implies(not isnone(r.meta.start), Doc_val_start_timestamp(d) == isoformat(unopt(r.meta.start)))
     and Doc_has_duration_seconds(d) and (Doc_null_duration_seconds(d) == isnone(r.meta.duration)) and implies(not isnone(r.meta.duration), Doc_val_duration_seconds(d) == total_seconds(unopt(r.meta.duration)))""")
 
 R.cls('labtech.serialization:Serializer', fields={})
-R.contract('labtech.serialization:Serializer.serialize_task', self_type='Obj[Serializer]', params={'task': 'Inst'}, returns='PV', pure=True,
-    defn='ser_task(Inst_to_Task(task))', note='verified against the value-tree spec in the C07/C09 cone; here only its purity and result symbol matter')
 R.cls(BC, fields={'serializer': 'Obj[Serializer]'},
       pure={'METADATA_FILENAME': 'META_NAME()', '__class__.__qualname__': 'cache_cls_name(CACHE_OF(self))', 'KEY_PREFIX': 'key_prefix(CACHE_OF(self))'})
 R.cls(PC, bases=(BC,), fields={'pickle_protocol': 'Int'}, pure={'RESULT_FILENAME': 'DATA_NAME()'})
@@ -285,3 +283,14 @@ R.classes[LABK].fields['_storage'] = 'Storage'
 R.contract(f'{TCK}.use_cache:body', self_type='Obj[TaskCoordinator]', params={'task': 'Inst'}, returns='Bool',
     ensures=[C("result == ((not self.bust_cache) and CACHEABLE(task) and (task.cache_key in DIRS))", 'bust_cache makes every cache test false; otherwise the test is is_cached', serves=('C08', 'C03'))],
     raises={'StorageError': []}, frame=[])
+
+# ---- reconstruction of cached tasks (C09)
+R.contract(f'{BC}.load_task', self_type='Obj[BaseCache]', params={'storage': 'Storage', 'task_type': 'Type', 'key': 'Key'}, returns='PV',
+    opaque_tests={'isinstance(task, task_type)': 'is_PTask(task) and (type_of_Task(Inst_to_Task(inst(task))) == task_type)'},
+    ensures=[C("is_PTask(result) and (type_of_Task(Inst_to_Task(inst(result))) == task_type)", 'only tasks of the requested type are returned (a type whose name merely starts like another\'s is rejected here)', serves=('C09',)),
+             C("(fid(key, META_NAME()) in FGOOD) and (result == PTask(deser_task_pv(Doc_val_task(json_inv(FGOOD[fid(key, META_NAME())])))))", 'the task is rebuilt from the document stored under that key', serves=('C09',)),
+             C("Doc_val_cache(json_inv(FGOOD[fid(key, META_NAME())])) == cache_cls_name(CACHE_OF(self))", 'entries of other cache formats contribute nothing', serves=('C09',)),
+             C("FILES_SAME() and DIRS_SAME_EXCEPT(key)", 'listing changes no file', serves=('C08',))],
+    raises={'Exception': [C("FILES_SAME() and DIRS_SAME_EXCEPT(key)", 'a failed load changes no file', serves=('C08',))]},
+    frame=FSFRAME + ['Handle.pending'])
+R.classes[BC].fields['serializer'] = 'Obj[Serializer]'
